@@ -38,3 +38,23 @@ PTT = T.rec(f"{SAP}:PacketTransportType", header_subtype=HST_ANY)
 GNREQ = T.rec(f"{SAP}:GNDataRequest", packet_transport_type=PTT, traffic_class=TC, area=AREA, data=T.bytes(0, 1500),
               security_permissions=T.bytes(0, 64), destination=T.opt(GNADDR),
               security_profile=T.enum("flexstack.security.security_profiles:SecurityProfile"))
+RT = "flexstack.geonet.router"
+ROUTER = T.obj(f"{RT}:Router", mib=MIB, ego_position_vector_lock=T.lock, ego_position_vector=LPV,
+               link_layer=T.opt(T.opaque("link_layer")), location_table=T.opaque("location_table"),
+               sign_service=T.opt(T.opaque("sign_service")), verify_service=T.opt(T.opaque("verify_service")),
+               indication_callback=T.opt(T.callback), sequence_number_lock=T.lock, sequence_number=T.int(0, 65534),
+               _beacon_reset_event=T.opt(T.opaque("event")), _ls_lock=T.lock, _cbf_lock=T.lock)
+PTT_SHB = T.rec(f"{SAP}:PacketTransportType", header_type=T.enum(f"{SAP}:HeaderType", only=["TSB"]),
+                header_subtype=T.enum(f"{SAP}:TopoBroadcastHST", only=["SINGLE_HOP"]))
+PTT_GBC = T.rec(f"{SAP}:PacketTransportType", header_type=T.enum(f"{SAP}:HeaderType", only=["GEOBROADCAST"]),
+                header_subtype=T.enum(f"{SAP}:GeoBroadcastHST"))
+PTT_GAC = T.rec(f"{SAP}:PacketTransportType", header_type=T.enum(f"{SAP}:HeaderType", only=["GEOANYCAST"]),
+                header_subtype=T.enum(f"{SAP}:GeoAnycastHST"))
+PTT_GUC = T.rec(f"{SAP}:PacketTransportType", header_type=T.enum(f"{SAP}:HeaderType", only=["GEOUNICAST"]),
+                header_subtype=T.enum(f"{SAP}:HeaderSubType"))
+
+
+def gnreq(ptt):
+    return T.rec(f"{SAP}:GNDataRequest", packet_transport_type=ptt, traffic_class=TC, area=AREA, data=T.bytes(0, 1500),
+                 security_permissions=T.bytes(0, 64), destination=T.opt(GNADDR),
+                 security_profile=T.enum("flexstack.security.security_profiles:SecurityProfile"))
